@@ -49,8 +49,21 @@ def check_swap_call(ctx, model, crate):
            "assert_max_spread(belief/max from distinct Option<Decimal> params: %s, offer amount: %s, return+3 fees: %s, spread: %s)" % (ok0, ok2, ok3, ok4), v.where(b))
     # which param is belief and which is max_spread: by the callee's use -- position 0 must be the parameter the
     # entry point names belief_price: compare with the dispatch in execute (same order as ExecuteMsg::Swap fields)
-    n0 = v.var_name(next(iter(a[0])).a) if a[0] else None
-    n1 = v.var_name(next(iter(a[1])).a) if a[1] else None
+    # which request field each of the two Option<Decimal> parameters carries: resolve at every call site of swap
+    names = {0: set(), 1: set()}
+    for (cp, cb, ck) in model.callers().get(p, []):
+        if ck != "call":
+            continue
+        cv = model.view(cp)
+        ct = cv.blocks[cb]["t"]
+        for pos in (0, 1):
+            for o in a[pos]:
+                if o.kind == "param" and o.a - 1 < len(ct["args"]):
+                    for x in cv.origins_of_operand(ct["args"][o.a - 1], at=cv.at_term(cb)):
+                        if x.proj:
+                            names[pos].add(x.proj[-1])
+    ctx.ob("C15-M1", "%s|belief-and-max-not-swapped" % p, names[0] == {"belief_price"} and names[1] == {"max_spread"},
+           "assert_max_spread's belief_price argument carries the request's %s and its max_spread argument the request's %s" % (sorted(names[0]), sorted(names[1])), v.where(b))
     spec = HelperGuard("assert_max_spread(..)?", r"^white_whale_std::pool_network::swap::assert_max_spread$")
     effects = [bb for bb, i, l, d in message_creations(v, model)] + [bb for bb, tt in v.calls_to(r"::state::store_fee$")]
     bad = [bb for bb in effects if not site_guarded(model, (), p, bb, spec)[0]]
